@@ -66,12 +66,13 @@ Proof. vm_compute. reflexivity. Qed.
 Example ex_nested_positional_untouched : eval_text_span sp_years "X[N[1]] + Y[`2001`]" = Ret "X[N[1]] + Y[1]".
 Proof. vm_compute. reflexivity. Qed.
 
-(* ---- mixed brackets (a label and a plain integer in one slice) still reach the callback: the plain STOP is incremented ---- *)
-Example ex_mixed_label_start_int_stop : eval_text_span sp_years "X[`2001`:3]" = Ret "X[1:4:]" /\ index_sem 5 "1:4:" = Some [1; 2; 3]%nat.
+(* ---- mixed brackets (a label and a plain item in one slice) reach the callback; since fix 967c56d the plain item is left as
+        written and only a label's stop is made inclusive ---- *)
+Example ex_mixed_label_start_int_stop : eval_text_span sp_years "X[`2001`:3]" = Ret "X[1:3:]" /\ index_sem 5 "1:3:" = Some [1; 2]%nat.
 Proof. split; vm_compute; reflexivity. Qed.
 Example ex_mixed_int_start_label_stop : eval_text_span sp_years "X[1:`2003`]" = Ret "X[1:4:]".
 Proof. vm_compute. reflexivity. Qed.
-Example ex_mixed_non_literal : eval_text_span sp_years "X[`2001`:2-1]" = Raise ValueError.
+Example ex_mixed_non_literal : eval_text_span sp_years "X[`2001`:2-1]" = Ret "X[1:2-1:]".
 Proof. vm_compute. reflexivity. Qed.
 
 (* ---- kept finding (label-not-alone-in-its-bracket): the regular expression ends a bracket at the FIRST closing bracket and
